@@ -42,6 +42,10 @@ pub fn encoding_of(content_type: Option<&[u8]>) -> Result<Enc, &'static str> {
     // parameters, if any, must at least look like name=value
     for p in ct.split(';').skip(1) {
         let p = p.trim();
+        if p.is_empty() {
+            // RFC 9110: parameters = *( OWS ";" OWS [ parameter ] )
+            continue;
+        }
         match p.split_once('=') {
             Some((n, v)) if token(n) && !v.is_empty() => {}
             _ => return Err("bad parameter"),
